@@ -6,11 +6,10 @@ CONSTANTS
   SessionLoss = TRUE
   ClearAfterRequeue = TRUE
   KeepOldWaiter = TRUE
+  SilentLoss = TRUE
   LossyWrites = FALSE
 INVARIANT Qos2AtMostOnce
 INVARIANT CompletedIsDelivered
-INVARIANT NoPubrelUnanswered
-INVARIANT NothingStuck
 INVARIANT OnlyOwnRelease
 VIEW NoHist
 CHECK_DEADLOCK FALSE
